@@ -461,17 +461,40 @@ func (cr *checkRun) tryReplay(j *OblResult) {
 	j.Replay = classifyReplay(j.Kind, out)
 }
 
+var panicSignature = map[string][]string{
+	"div":        {"integer divide by zero"},
+	"index":      {"index out of range"},
+	"slice":      {"slice bounds out of range"},
+	"make":       {"makeslice", "negative len", "len out of range", "cap out of range"},
+	"alloc":      {"makeslice", "out of memory", "len out of range"},
+	"typeassert": {"interface conversion"},
+}
+
 func classifyReplay(kind, out string) string {
 	switch {
 	case strings.Contains(out, "REPLAY-PANIC:"):
-		if safetyKinds[kind] {
-			return "REPRODUCED: the real code panics on the model input: " + firstLineWith(out, "REPLAY-PANIC:")
+		line := firstLineWith(out, "REPLAY-PANIC:")
+		if strings.Contains(line, "nil pointer dereference") {
+			return "inconclusive: the replay environment is incomplete (nil dereference in code the model does not describe): " + line
 		}
-		return "REPRODUCED (panic instead of the specified result): " + firstLineWith(out, "REPLAY-PANIC:")
+		if sigs, ok := panicSignature[kind]; ok {
+			for _, s := range sigs {
+				if strings.Contains(line, s) {
+					return "REPRODUCED: the real code panics on the model input: " + line
+				}
+			}
+			return "inconclusive: the real code panics on the model input, but not with the failure this obligation describes: " + line
+		}
+		if kind == "panic" {
+			return "REPRODUCED: the real code panics on the model input: " + line
+		}
+		return "inconclusive: the real code panics on the model input (" + line + "); the violated clause itself was not evaluated"
 	case strings.Contains(out, "fatal error:"):
 		return "REPRODUCED: the real code dies on the model input: " + firstLineWith(out, "fatal error:")
 	case strings.Contains(out, "panic: test timed out"):
 		return "REPRODUCED: the real code does not terminate on the model input (60 s)"
+	case strings.Contains(out, "REPLAY-VIOLATED"):
+		return "REPRODUCED: " + firstLineWith(out, "REPLAY-VIOLATED")
 	case strings.Contains(out, "REPLAY-RETURNED"):
 		return "not reproduced by the entry-state model (the function returned: " + firstLineWith(out, "REPLAY-RETURNED") + ")"
 	case strings.Contains(out, "[build failed]") || strings.Contains(out, "[setup failed]"):
